@@ -7,7 +7,7 @@ IDS=$(python3 -c "import json;print(' '.join(c['property_id'] for c in json.load
 (cd "$REPO" && git apply "$P") 2>/dev/null || { echo "APPLY-FAILED"; exit 2; }
 hit=""
 for id in $IDS; do
-  out=$(bin/rdpgwlint -property $id -tier quick -repo "$REPO" 2>&1); rc=$?
+  out=$(VERIF_NO_EVIDENCE=1 bin/rdpgwlint -property $id -tier quick -repo "$REPO" 2>&1); rc=$?
   if [ $rc -eq 1 ]; then
     rules=$(echo "$out" | grep -o "\[$id/[a-z0-9-]*\] \(violated\|undecided\)" | sed 's/\] violated//; s/\] undecided/?/; s/\['"$id"'\///' | sort -u | tr '\n' ',' | sed 's/,$//')
     hit="$hit $id[$rules]"
